@@ -13,7 +13,7 @@ print({k: len(v) for k, v in out.items()})
 # ... and, per function, the attributes of self / cls it writes (pkstatic/known_writes.json): a reviewed function that later writes
 # another attribute has a side effect no rule was written for (<PID>.writers)
 from pkstatic.model import Program
-from pkstatic.defined import written_attrs
+from pkstatic.defined import loop_exits, written_attrs
 prog = Program()
 w = {}
 def module_names(mi):
@@ -28,8 +28,8 @@ for mname, mi in prog.modules.items():
     names = module_names(mi)
     for ci in mi.classes.values():
         for fi in ci.methods.values():
-            w[f'{mname}:{fi.qualname}'] = dict(sorted(written_attrs(fi.node, names).items()))
+            w[f'{mname}:{fi.qualname}'] = dict(sorted(written_attrs(fi.node, names).items()), **{'<loop exits>': loop_exits(fi.node)})
     for fi in mi.functions.values():
-        w[f'{mname}:{fi.qualname}'] = dict(sorted(written_attrs(fi.node, names).items()))
+        w[f'{mname}:{fi.qualname}'] = dict(sorted(written_attrs(fi.node, names).items()), **{'<loop exits>': loop_exits(fi.node)})
 json.dump(w, open('/verif/pkstatic/known_writes.json', 'w'), indent=0, sort_keys=True)
 print(len(w), 'methods with write sets')
